@@ -569,6 +569,19 @@ pub fn c17_single(a: &LeanString, sa: &str, what: &str, out: &mut Vec<Viol>) {
     if format!("{a}") != format!("{sa}") || format!("{a:?}") != format!("{sa:?}") || format!("{a:>10}|{a:<7}|{a:^9.3}") != format!("{sa:>10}|{sa:<7}|{sa:^9.3}") {
         v("format", format!("{what}: Display/Debug/padding of {sa:?} differ from str's"));
     }
+    // conversions out of a LeanString are functions of the text as well
+    let mut ext = String::from("<");
+    ext.extend([a.clone(), a.clone()]);
+    if String::from(a) != sa || String::from(a.clone()) != sa || ext != format!("<{sa}{sa}") {
+        v("to-string", format!("{what}: String::from(&LeanString) / String::from(LeanString) / String::extend([LeanString]) of {sa:?} differ from the text"));
+    }
+    #[cfg(any(feature = "ls-std", feature = "ls-all"))]
+    {
+        let os: &std::ffi::OsStr = a.as_ref();
+        if os != std::ffi::OsStr::new(sa) {
+            v("as-ref-osstr", format!("{what}: AsRef<OsStr> of {sa:?} differs"));
+        }
+    }
     let br: &str = std::borrow::Borrow::borrow(a);
     let ar: &str = a.as_ref();
     let ab: &[u8] = a.as_ref();
